@@ -10,6 +10,7 @@ var suites = map[string]func(tier string) []*families.Case{
 	"beh": behSuite,
 	"f2":  f2Suite,
 	"hist": histSuite,
+	"f11":  func(tier string) []*families.Case { return families.F11(5, 5, []string{"", "s", "is"}) },
 }
 
 // histSuite: operation histories on one parser instance (C12).
@@ -67,6 +68,7 @@ func behSuite(tier string) []*families.Case {
 		cs = append(cs, families.F7(3, 3, []string{"", "is", "n"})...)
 		cs = append(cs, families.F8(3, 3, []string{"", "i", "s", "n", "ns"})...)
 		cs = append(cs, families.F10(4, 4, []string{"", "i"})...)
+		cs = append(cs, families.F11(6, 5, []string{"", "s", "is"})...)
 		h := append(families.F1(1, 3, 0, nil), families.F4(0, nil)...)
 		h = append(h, families.F7(2, 0, nil)...)
 		cs = append(cs, families.Hostile(h, 4, []string{"", "is", "n"})...)
@@ -80,6 +82,7 @@ func behSuite(tier string) []*families.Case {
 		cs = append(cs, families.F7(2, 3, []string{"", "is"})...)
 		cs = append(cs, families.F8(3, 3, []string{"", "n"})...)
 		cs = append(cs, families.F10(4, 4, []string{""})...)
+		cs = append(cs, families.F11(4, 5, []string{"", "s"})...)
 		h := append(families.F1(1, 2, 0, nil), families.F4(0, nil)[:40]...)
 		cs = append(cs, families.Hostile(h, 3, []string{"", "is"})...)
 	}
